@@ -322,18 +322,161 @@ def rule_r5(prog, res):
                     'added to the interface')
 
 
+# ------------------------------------------------------------------- R6
+def rule_r6(prog, res):
+    res.rule('R6', 'the type\'s own binary encoding (the one the schema '
+             'publishes) wins over the caller\'s suggestion in every codec')
+    n = 0
+    for cfq in ('spyne.protocol._outbase:OutProtocolBase',
+                'spyne.protocol._inbase:InProtocolBase'):
+        c = prog.cls(cfq)
+        for nm, f in sorted(c.methods.items()):
+            if 'suggested_encoding' not in f.params():
+                continue
+            asg = [a for a in walk_no_defs(f.node) if isinstance(a, ast.Assign)
+                   and any(isinstance(t, ast.Name) and t.id == 'encoding'
+                           for t in a.targets)]
+            if not asg:
+                continue
+            asg.sort(key=lambda a: a.lineno)
+            n += 1
+            first = asg[0]
+            where = '%s:%d' % (f.module.relpath, first.lineno)
+            own = isinstance(first.value, ast.Attribute) and \
+                first.value.attr == 'encoding'
+            bad = []
+            if not own:
+                bad.append((first, 'the first value of encoding is %s, not '
+                            'the type\'s own encoding attribute' %
+                            unparse(first.value)[:40]))
+            for a in asg[1:]:
+                g = flatten_guards(guards_at(a, stop=f.node))
+                ok = any(pol and isinstance(e, ast.Compare) and isinstance(
+                    e.left, ast.Name) and e.left.id == 'encoding' and
+                    isinstance(e.ops[0], ast.Is) and unparse(
+                        e.comparators[0]) in ('BINARY_ENCODING_USE_DEFAULT',
+                                              'None') for e, pol in g)
+                if not ok:
+                    bad.append((a, 'encoding = %s is not guarded by '
+                                '"encoding is BINARY_ENCODING_USE_DEFAULT/'
+                                'None"' % unparse(a.value)[:40]))
+            res.ob('R6', where, '%s: own encoding first, %d fallback '
+                   'assignment(s) all behind the use-default test' % (
+                       f.qualname, len(asg) - 1),
+                   'VIOLATED' if bad else 'ok')
+            for a, msg in bad:
+                res.finding('R6', '%s|encoding-precedence|%s' % (
+                    f.qualname, unparse(a.value)[:30]),
+                    '%s:%d' % (f.module.relpath, a.lineno),
+                    '%s: %s; a member declared with encoding=hex is then '
+                    'sent in the protocol\'s encoding (base64) although the '
+                    'schema says xs:hexBinary, and the sibling reader '
+                    'still expects hex' % (f.qualname, msg))
+    res.floor('R6', 'codecs choosing a binary encoding', n, 8)
+
+
+# ------------------------------------------------------------------- R7
+TYPED_FACETS = ('values', 'default', 'gt', 'ge', 'lt', 'le', 'fixed')
+
+
+def rule_r7(prog, res):
+    res.rule('R7', 'typed facet values are published in the protocol\'s '
+             'own text form (to_unicode), not str()')
+    m = prog.module('spyne.interface.xml_schema.model')
+    n = 0
+    for f in m.functions.values():
+        for c in calls_in(f.node):
+            if not (call_name(c) == 'set' and len(c.args) == 2 and
+                    isinstance(c.args[0], ast.Constant) and
+                    c.args[0].value in ('value', 'default', 'fixed')):
+                continue
+            x = c.args[1]
+            where = '%s:%d' % (m.relpath, c.lineno)
+            # which facet does x carry?
+            names = {t.id for t in ast.walk(x) if isinstance(t, ast.Name)}
+            facet = None
+            for t in ast.walk(x):
+                if isinstance(t, ast.Attribute) and t.attr in TYPED_FACETS:
+                    facet = t.attr
+            for a in ancestors(c):
+                if isinstance(a, ast.For) and isinstance(
+                        a.target, ast.Name) and a.target.id in names:
+                    it = unparse(a.iter)
+                    if it.endswith('Attributes.values'):
+                        facet = 'values'
+                    elif it.endswith('__values__'):
+                        facet = None
+            if c.args[0].value == 'default' and facet is None:
+                facet = 'default'
+            if facet is None:
+                continue
+            n += 1
+            ok = isinstance(x, ast.Call) and call_name(x) == 'to_unicode'
+            res.ob('R7', where, '%s: %s facet published as %s' % (
+                f.qualname, facet, unparse(x)[:50]),
+                'ok' if ok else 'VIOLATED')
+            if not ok:
+                res.finding('R7', '%s|%s|%s' % (f.qualname, facet,
+                                                unparse(x)[:30]), where,
+                            '%s publishes the %s facet as %s instead of the '
+                            'protocol\'s to_unicode text: for Decimal, '
+                            'DateTime, Boolean ... the schema literal differs '
+                            'from the literal the runtime emits and accepts '
+                            '(e.g. "2020-01-01 00:00:00" vs '
+                            '"2020-01-01T00:00:00")' % (
+                                f.qualname, facet, unparse(x)[:50]))
+    res.floor('R7', 'typed facet values published', n, 6)
+
+
+def rule_r8(prog, res):
+    from . import c05
+    from ..report import Result
+    res.share('R8', 'minOccurs/maxOccurs published by the schema are '
+              'enforced before the instance is returned (C05-R9, C05-R2)',
+              'C05', c05.rule_r9, prog, Result)
+    res.share('R8', 'minOccurs/maxOccurs published by the schema are '
+              'enforced before the instance is returned (C05-R9, C05-R2)',
+              'C05', c05.rule_r2, prog, Result)
+
+
 def run(prog, res, tier):
     res.run_rule(rule_r1, prog, res)
     res.run_rule(rule_r2, prog, res)
     res.run_rule(rule_r3, prog, res)
     res.run_rule(rule_r4, prog, res)
     res.run_rule(rule_r5, prog, res)
+    res.run_rule(rule_r6, prog, res)
+    res.run_rule(rule_r7, prog, res)
+    res.run_rule(rule_r8, prog, res)
 
 
 _M = 'spyne/interface/xml_schema/model.py'
 _I = 'spyne/interface/_base.py'
 
 MUTANTS = [
+    Mutant('suggested-encoding-wins', 'R6', 'fire',
+           'spyne/protocol/_outbase.py',
+           in_func('OutProtocolBase.byte_array_to_unicode',
+                   "        encoding = self.get_cls_attrs(cls).encoding\n"
+                   "        if encoding is BINARY_ENCODING_USE_DEFAULT:\n",
+                   "        encoding = self.get_cls_attrs(cls).encoding\n"
+                   "        if suggested_encoding is not None:\n"
+                   "            encoding = suggested_encoding\n"
+                   "        if encoding is BINARY_ENCODING_USE_DEFAULT:\n"),
+           'encoding-precedence'),
+    Mutant('encoding-via-attrs-local', 'R6', 'benign',
+           'spyne/protocol/_outbase.py',
+           in_func('OutProtocolBase.byte_array_to_unicode',
+                   "        encoding = self.get_cls_attrs(cls).encoding\n",
+                   "        cls_attrs = self.get_cls_attrs(cls)\n"
+                   "        encoding = cls_attrs.encoding\n"), None),
+    Mutant('enumeration-by-str', 'R7', 'fire', _M,
+           in_func('simple_get_restriction_tag',
+                   "XmlDocument().to_unicode(cls, v)", "str(v)"), 'values'),
+    Mutant('enumeration-by-shared-prot', 'R7', 'benign', _M,
+           in_func('simple_get_restriction_tag',
+                   "XmlDocument().to_unicode(cls, v)",
+                   "_prot.to_unicode(cls, v)"), None),
     Mutant('gt-as-inclusive', 'R1', 'fire', _M,
            in_func('Tget_range_restriction_tag', "XSD('minExclusive')",
                    "XSD('minInclusive')"), 'gt'),
